@@ -137,6 +137,25 @@ INPUBS = ((0, False, False, 1, 'short'), (0, False, True, 1, 'nonascii'),
           (2, False, False, 1, 'short'), (2, True, False, 1, 'nonascii'), (2, False, True, 2, 'binary'))
 
 
+class Scn(Std):
+    """Adds: two broker packets arriving in ONE segment (what a decoder that reads 'to the end of the buffer' gets wrong)."""
+
+    def enabled(self, w):
+        from .. import refcodec as rc
+        out = Std.enabled(self, w)
+        if self.used(w).get('raw', 0) < self.budgets.get('raw', 0):
+            for a in self.addrs:
+                c = w.conn(a)
+                if c is not None and c.open and w.phase(c) == 'connected':
+                    p0 = rc.enc_publish(IN_TOPICS['short'], PAYLOADS['short'], 0)
+                    p1 = rc.enc_publish(IN_TOPICS['nonascii'], PAYLOADS['nonascii'], 1, False, True, 2)
+                    p2 = rc.enc_publish(IN_TOPICS['binary'], PAYLOADS['binary'], 2, False, False, 1)
+                    out.append(('raw', a, p0 + p1))
+                    out.append(('raw', a, p2 + rc.enc_ack('PUBREL', 1) + p0))
+                    out.append(('raw', a, p1 + rc.enc_ack('PUBREL', 3)))
+        return out
+
+
 def scenarios(ctx):
     q = ctx.quick
     out = []
@@ -145,10 +164,10 @@ def scenarios(ctx):
         if q and (profile, clean, ver) in (('sub', True, 4), ('pubsub', False, 3), ('sub', False, 3), ('pubsub', True, 4)):
             continue
         init = (('connect', 0, clean, 0, ver), ('connack', 0, 0, False))
-        out.append(Std('%s-%s-v%d' % (profile, 'clean' if clean else 'persist', ver), profile=profile, init=init,
+        out.append(Scn('%s-%s-v%d' % (profile, 'clean' if clean else 'persist', ver), profile=profile, init=init,
                        connects=[(clean, 0, ver)], reconnects=[(False, 0, ver), (True, 0, ver)],
                        inpubs=INPUBS, inrels=((1,), (2,), (3,)), closing=False,
-                       budgets=dict(inpub=4 if q else 5, inrel=3 if q else 4, lose=2, rebuild=2, connect=2, connack=2)))
+                       budgets=dict(inpub=4 if q else 5, inrel=3 if q else 4, raw=1, lose=2, rebuild=2, connect=2, connack=2)))
     return out
 
 
